@@ -523,3 +523,15 @@ def leaf_kinds(res, v):
         elif o.kind == "cvxvar":
             vs.add(r)
     return ps, vs
+
+
+def rule_no_global_state(rep, res, entry=None, rule="R-PURITY"):
+    """no module-level mutable state is written on the analysed path (caches make results history dependent)"""
+    entry = entry or res.entry
+    n = 0
+    for ev in res.events("global_mutation", "global_stmt"):
+        n += 1
+        rep.violated(rule, "no module-level mutable state", where=ev.loc, construct=ev.text(), entry=entry, config=res.config,
+                     msg=f"module-level object `{ev.d.get('name', ev.d.get('names'))}` is mutated ({ev.d.get('how', 'global')}): "
+                         f"the result of a call depends on earlier calls in the same process")
+    return n
